@@ -86,7 +86,7 @@ def shrink_case(case, fails):
 
 
 def run(ctx):
-    n_valid, n_mal = (6000, 1500) if ctx.tier == "quick" else (400000, 100000)
+    n_valid, n_mal = (6000, 1500) if ctx.tier == "quick" else (300000, 75000)
     ctx.assumptions += [
         "model: one async import call (Subtask::call) polled under one harness-owned wasip3_task (C ABI v1 or v2); handles, statuses as N",
         "host: scripted mock (rtmock) = Coq Async/Host.v; CM validity of a history = SubtaskOp.valid_trace (call answers STARTING/STARTED with a handle or RETURNED without; events only forward; cancel answers consistent with what the host committed to)",
